@@ -20,6 +20,8 @@ use humphrey::http::Request;
 use serde_json::{json, Value};
 use std::collections::BTreeMap;
 use std::net::{IpAddr, Ipv4Addr, Ipv6Addr, SocketAddr};
+use std::sync::atomic::{AtomicU64, Ordering};
+use std::sync::Mutex;
 
 /// A read plan: the i-th element is the size of the i-th segment; a read never crosses a segment boundary.
 /// `pending`: (tokio only) the reader answers Poll::Pending once before every segment.
@@ -29,6 +31,45 @@ pub struct Plan {
     pub name: String,
     pub chunks: Vec<usize>,
     pub pending: bool,
+}
+
+// ------------------------------------------------------------------------------------------------
+// watchdog: a parser that never returns (a read loop that ignores end-of-stream, a future that is never woken)
+// must end as a reported mismatch, not as a timeout of the tooling.  One tick per parse; when no parse completes
+// for HANG_SECS the process prints a final line carrying "hang" and exits.
+// ------------------------------------------------------------------------------------------------
+static TICK: AtomicU64 = AtomicU64::new(0);
+static DONE: AtomicU64 = AtomicU64::new(0);
+static CURRENT: Mutex<String> = Mutex::new(String::new());
+const HANG_SECS: u64 = 60;
+
+fn start_watchdog(runtime: &'static str, mode: &'static str) {
+    std::thread::spawn(move || {
+        let (mut last, mut still) = (u64::MAX, 0u64);
+        loop {
+            std::thread::sleep(std::time::Duration::from_secs(1));
+            let t = TICK.load(Ordering::SeqCst);
+            if t == last && t > DONE.load(Ordering::SeqCst) { still += 1 } else { still = 0; last = t; }
+            if still >= HANG_SECS {
+                let cur = CURRENT.lock().map(|g| g.clone()).unwrap_or_default();
+                out_line(&json!({"summary": mode == "replay", "hang": format!("{} parser did not return within {} s on: {}", runtime, HANG_SECS, cur),
+                                 "runtime": runtime}));
+                std::process::exit(0);
+            }
+        }
+    });
+}
+
+fn set_current(what: String) {
+    if let Ok(mut g) = CURRENT.lock() { *g = what; }
+}
+
+/// every call of the parser goes through here
+fn run_parse(parser: &dyn Parser, data: &[u8], plan: &Plan, peer: SocketAddr) -> (Result<Request, String>, usize) {
+    TICK.fetch_add(1, Ordering::SeqCst);
+    let r = parser.parse(data, plan, peer);
+    DONE.store(TICK.load(Ordering::SeqCst), Ordering::SeqCst);
+    r
 }
 
 pub trait Parser {
@@ -120,9 +161,20 @@ pub fn observe(r: &Request) -> Obs {
     }
     let mut lookup_ok = true;
     for (k, vals) in &h {
-        let upper = String::from_utf8_lossy(&k.to_ascii_uppercase()).into_owned();
-        let all: Vec<Vec<u8>> = r.headers.get_all(upper.as_str()).into_iter().map(|s| s.as_bytes().to_vec()).collect();
-        if &all != vals || r.headers.get(upper.as_str()).map(|s| s.as_bytes()) != vals.first().map(|v| &v[..]) { lookup_ok = false; }
+        // lower, UPPER and aLtErNaTiNg spelling of every name through the string API
+        let lower = String::from_utf8_lossy(k).into_owned();
+        let upper = lower.to_ascii_uppercase();
+        let mixed: String = lower.chars().enumerate().map(|(i, c)| if i % 2 == 1 { c.to_ascii_uppercase() } else { c }).collect();
+        for spelling in [&lower, &upper, &mixed] {
+            let all: Vec<Vec<u8>> = r.headers.get_all(spelling.as_str()).into_iter().map(|s| s.as_bytes().to_vec()).collect();
+            if &all != vals || r.headers.get(spelling.as_str()).map(|s| s.as_bytes()) != vals.first().map(|v| &v[..]) { lookup_ok = false; }
+        }
+    }
+    // get_cookie(name) is the first cookie of that name
+    let cookies = r.get_cookies();
+    for c in &cookies {
+        let first = cookies.iter().find(|x| x.name == c.name);
+        if r.get_cookie(&c.name).as_ref() != first { lookup_ok = false; }
     }
     Obs {
         lookup_ok,
@@ -216,11 +268,15 @@ pub fn plans_for(len: usize, rng: &mut Rng, nrandom: usize, every_split: bool) -
     let mut ps = vec![
         Plan { name: "all-at-once".into(), chunks: vec![len], pending: false },
         Plan { name: "one-byte-per-read".into(), chunks: vec![1; len], pending: false },
-        Plan { name: "one-byte-per-read+pending".into(), chunks: vec![1; len], pending: true },
     ];
+    if len <= 2000 { ps.push(Plan { name: "one-byte-per-read+pending".into(), chunks: vec![1; len], pending: true }); }
     if every_split {
+        // every single split point; on long messages (scale family) every step-th one plus all of the last 80 bytes
+        let step = if len <= 400 { 1 } else { len / 200 };
         for k in 1..len {
-            ps.push(Plan { name: format!("split@{}", k), chunks: vec![k, len - k], pending: k % 2 == 0 });
+            if step == 1 || k % step == 0 || k + 80 >= len {
+                ps.push(Plan { name: format!("split@{}", k), chunks: vec![k, len - k], pending: k % 2 == 0 });
+            }
         }
     }
     for k in [2usize, 3, 7] {
@@ -255,6 +311,7 @@ pub fn replay(parser: &dyn Parser) {
         let exp = exp_from_json(&v["exp"]);
         let used = v["exp"]["used"].as_u64().unwrap() as usize;
         cases += 1;
+        set_current(format!("{} (peer {})", show(&wire[..wire.len().min(400)]), peer));
         let mut case_bad = false;
         // at most two reports per case and 40 per run (the counters still see every mismatch)
         let reported = std::cell::Cell::new(0u32);
@@ -274,7 +331,7 @@ pub fn replay(parser: &dyn Parser) {
         let mut parsed_once: Option<Request> = None;
         for pl in &plans {
             parses += 1;
-            let (res, handed) = parser.parse(&wire, pl, peer);
+            let (res, handed) = run_parse(parser, &wire, pl, peer);
             match res {
                 Ok(req) => {
                     let got = observe(&req);
@@ -294,7 +351,7 @@ pub fn replay(parser: &dyn Parser) {
             roundtrips += 1;
             for pl in plans_for(bytes.len(), &mut rng, 2, false) {
                 parses += 1;
-                let (res, handed) = parser.parse(&bytes, &pl, peer);
+                let (res, handed) = run_parse(parser, &bytes, &pl, peer);
                 match res {
                     Ok(r2) => {
                         let got2 = observe(&r2);
@@ -331,7 +388,17 @@ const KNOWN: &[&str] = &["Host", "Accept", "Accept-Encoding", "Accept-Language",
     "Content-Type", "Authorization", "Origin", "Via", "Pragma", "Upgrade", "Date", "ETag", "Link", "Age", "Allow", "Server", "Expect", "From",
     "Warning", "Forwarded", "Location", "Content-Encoding", "Access-Control-Request-Method"];
 const CUSTOM: &[&str] = &["X-A", "X-B", "x-dup", "X-Request-Id", "x_under", "X.Dot", "Sec-Fetch-Mode", "DNT", "X~T!#$&'*+^`|"];
-const UNI: &[&str] = &["é", "日", "😀", "ß", "\u{a0}", "\u{3000}", "\u{85}"];
+// one representative per Unicode class (Rust's char predicates, case mappings and trim are Unicode-aware)
+/// non-ASCII White_Space: NBSP, NEL (a C1 control), OGHAM SPACE MARK, LINE SEPARATOR, IDEOGRAPHIC SPACE
+const WS_UNI: &[&str] = &["\u{a0}", "\u{85}", "\u{1680}", "\u{2028}", "\u{3000}"];
+/// letters, non-ASCII digits (Arabic-Indic, fullwidth, mathematical), other numerics, length-changing case mappings,
+/// a combining mark, C1 controls, DEL, private use
+const NONWS_UNI: &[&str] = &["é", "日", "😀", "ß", "İ", "ﬁ", "\u{663}", "\u{ff11}", "\u{1d7d9}", "²", "½", "Ⅷ", "e\u{301}",
+    "\u{80}", "\u{9f}", "\u{7f}", "\u{e000}"];
+
+fn uni_any<'a>(rng: &mut Rng) -> &'a str {
+    if rng.chance(1, 3) { *rng.pick(WS_UNI) } else { *rng.pick(NONWS_UNI) }
+}
 
 fn mutate_case(rng: &mut Rng, s: &str) -> String {
     match rng.below(4) {
@@ -342,26 +409,33 @@ fn mutate_case(rng: &mut Rng, s: &str) -> String {
     }
 }
 
+/// A field value: printable ASCII with delimiters, inner blanks and Unicode classes in the middle; with some
+/// probability a Unicode class (white space included) at the very start and a non-white-space one at the very end.
+/// Never leading SP/HTAB (not part of a value) and never trailing white space of any kind (outside the property).
 fn rand_value(rng: &mut Rng, len: usize) -> Vec<u8> {
-    let mut v: Vec<u8> = vec![];
+    let mut v = String::new();
     while v.len() < len {
         match rng.below(20) {
-            0 => v.extend(rng.pick(UNI).as_bytes()),
-            1 => v.push(b' '),
-            2 => v.push(b'\t'),
-            3 => v.push(*rng.pick(&[b':', b',', b';', b'=', b'?', b'%', b'"', b'\\'])),
-            _ => v.push(rng.range(0x21, 0x7e) as u8),
+            0 => v.push_str(uni_any(rng)),
+            1 => v.push(' '),
+            2 => v.push('\t'),
+            3 => v.push(*rng.pick(&[':', ',', ';', '=', '?', '%', '"', '\\'])),
+            _ => v.push(rng.range(0x21, 0x7e) as u8 as char),
         }
     }
-    // no leading / trailing OWS (leading OWS is not part of a value; trailing whitespace is outside the property)
-    while matches!(v.first(), Some(b' ') | Some(b'\t')) { v.remove(0); }
-    while matches!(v.last(), Some(b' ') | Some(b'\t')) { v.pop(); }
-    // no trailing Unicode white space either
-    for w in ["\u{a0}", "\u{3000}", "\u{85}"] {
-        while v.ends_with(w.as_bytes()) { v.truncate(v.len() - w.len()); }
-    }
-    while matches!(v.last(), Some(b' ') | Some(b'\t')) { v.pop(); }
-    v
+    let mut v = v.trim_start_matches(|c| c == ' ' || c == '\t').trim_end().to_string();
+    if rng.chance(1, 6) { v.insert_str(0, uni_any(rng)); }
+    if rng.chance(1, 6) { v.push_str(*rng.pick(NONWS_UNI)); }
+    v.trim_end().to_string().into_bytes()
+}
+
+/// token over `alphabet`, now and then with a Unicode class at the start / inside / at the end (white space only inside)
+fn rand_uni_token(rng: &mut Rng, alphabet: &[u8], lo: usize, hi: usize) -> Vec<u8> {
+    let mut t = rand_token(rng, alphabet, lo, hi);
+    if rng.chance(1, 8) { let mut x = rng.pick(NONWS_UNI).as_bytes().to_vec(); x.extend(&t); t = x; }
+    if rng.chance(1, 8) && t.is_ascii() && t.len() >= 2 { let at = rng.range(1, t.len() - 1); let u = uni_any(rng); t.splice(at..at, u.bytes()); }
+    if rng.chance(1, 8) { t.extend(rng.pick(NONWS_UNI).as_bytes()); }
+    t
 }
 
 fn rand_token(rng: &mut Rng, alphabet: &[u8], lo: usize, hi: usize) -> Vec<u8> {
@@ -398,30 +472,39 @@ fn generate(rng: &mut Rng, max_body: usize) -> Generated {
         for _ in 0..rng.range(0, 12) {
             match rng.below(12) {
                 0 => target.extend(format!("%{:02X}", rng.byte()).as_bytes()),
-                1 => target.extend(rng.pick(&["é", "日", "😀"]).as_bytes()),
+                1 => target.extend(uni_any(rng).as_bytes()),
                 _ => target.push(*rng.pick(PATHC)),
             }
         }
     }
+    if rng.chance(1, 8) { target.extend(uni_any(rng).as_bytes()); }          // a Unicode class as the last thing in the path
     if rng.chance(1, 2) {
         target.push(b'?');
         for _ in 0..rng.range(0, 24) {
             match rng.below(10) {
                 0 => target.extend(format!("%{:02x}", rng.byte()).as_bytes()),
                 1 => target.push(*rng.pick(&[b'?', b'&', b'=', b'/', b'#'])),
+                2 => target.extend(uni_any(rng).as_bytes()),
                 _ => target.push(*rng.pick(PATHC)),
             }
         }
+        if rng.chance(1, 8) { target.extend(uni_any(rng).as_bytes()); }      // ... and in the query, right before " HTTP/1.x"
     }
     let version = *rng.pick(&["HTTP/1.1", "HTTP/1.0"]);
 
     // field lines
-    let nfields = match rng.below(4) { 0 => rng.range(0, 3), 1 => rng.range(4, 20), _ => rng.range(21, 40) };
+    // 0..100 fields; the counts around 20 and 32 (where Rust's sorts stop using insertion sort) come up often
+    let nfields = match rng.below(6) {
+        0 => rng.range(0, 3),
+        1 => rng.range(4, 18),
+        2 | 3 => *rng.pick(&[19usize, 20, 21, 22, 31, 32, 33, 34, 64, 100]),
+        _ => rng.range(21, 100),
+    };
     let dup_pool: Vec<&str> = (0..rng.range(1, 4)).map(|_| if rng.chance(1, 2) { *rng.pick(KNOWN) } else { *rng.pick(CUSTOM) }).collect();
     let mut lines: Vec<Vec<u8>> = vec![];
     for i in 0..nfields {
         let name = if rng.chance(1, 2) { *rng.pick(&dup_pool) } else if rng.chance(1, 2) { *rng.pick(KNOWN) } else { *rng.pick(CUSTOM) };
-        let vlen = if rng.chance(1, 15) { rng.range(200, 4000) } else { rng.range(0, 30) };
+        let vlen = if rng.chance(1, 40) { rng.range(200, 4000) } else { rng.range(0, 30) };
         let mut value = rand_value(rng, vlen);
         if rng.chance(1, 3) { let mut t = format!("{}-", i).into_bytes(); t.extend(value); value = t; } // make repeated names distinguishable
         let mut l = mutate_case(rng, name).into_bytes();
@@ -430,19 +513,40 @@ fn generate(rng: &mut Rng, max_body: usize) -> Generated {
         l.extend(value);
         lines.push(l);
     }
+    // one name 2..10 times among the others, in every spelling, values numbered in order of appearance
+    if nfields >= 4 {
+        for j in 0..rng.range(2, 10) {
+            let mut l = mutate_case(rng, "X-Same").into_bytes();
+            l.push(b':');
+            l.extend(ows(rng).as_bytes());
+            l.extend(format!("s{}", j).as_bytes());
+            let at = rng.range(0, lines.len());
+            lines.insert(at, l);
+        }
+    }
     if rng.chance(1, 2) {
         const CK: &[u8] = b"abcdefghijklmnopqrstuvwxyzABCDEFGHIJKLMNOPQRSTUVWXYZ0123456789-._~!#$&'*+^`|";
         const CV: &[u8] = b"abcdefghijklmnopqrstuvwxyzABCDEFGHIJKLMNOPQRSTUVWXYZ0123456789-._~!#$&'()*+/:<=>?@[]^`{|}";
         let mut l = mutate_case(rng, "Cookie").into_bytes();
         l.push(b':');
         l.extend(ows(rng).as_bytes());
-        let n = rng.range(0, 6);
+        // pieces: name=value, and the degenerate forms - empty piece (";;"), a lone "=", "=v", "n=", a piece without "="
+        let n = rng.range(0, 8);
         for k in 0..n {
             if k > 0 { l.extend(rng.pick(&["; ", "; ", ";"]).as_bytes()); }
-            l.extend(rand_token(rng, CK, 1, 8));
-            l.push(b'=');
-            l.extend(rand_token(rng, CV, 0, 16));
+            match rng.below(12) {
+                0 => {}
+                1 => l.push(b'='),
+                2 => { l.push(b'='); l.extend(rand_token(rng, CV, 1, 6)); }
+                3 => { l.extend(rand_token(rng, CK, 1, 6)); }
+                _ => {
+                    l.extend(rand_uni_token(rng, CK, 1, 8));
+                    l.push(b'=');
+                    if rng.chance(4, 5) { l.extend(rand_uni_token(rng, CV, 1, 16)); }
+                }
+            }
         }
+        while matches!(l.last(), Some(b' ') | Some(b'\t')) { l.pop(); }       // an empty last piece: the value ends with ';' 
         let at = rng.range(0, lines.len());
         lines.insert(at, l);
     }
@@ -450,18 +554,22 @@ fn generate(rng: &mut Rng, max_body: usize) -> Generated {
         let mut l = mutate_case(rng, "X-Forwarded-For").into_bytes();
         l.push(b':');
         l.extend(ows(rng).as_bytes());
-        let n = rng.range(1, 5);
+        // 1..8 entries: addresses and things that are none (text, truncated / out-of-range / decorated addresses,
+        // non-ASCII digits, empty entries from ",," or a lone ",")
+        let n = rng.range(1, 8);
         for k in 0..n {
             if k > 0 { l.push(b','); l.extend(ows(rng).as_bytes()); }
             let last = k == n - 1;
             if rng.chance(1, 4) {
-                let g = *rng.pick(&["unknown", "_hidden", "1.2.3", "300.1.1.1", "1.2.3.4:80", "host.example", "[::1]", "1.2.3.4.5", "::g", ""]);
-                l.extend(if last && g.is_empty() { "unknown" } else { g }.as_bytes());
+                let g = *rng.pick(&["unknown", "_hidden", "1.2.3", "300.1.1.1", "1.2.3.4:80", "host.example", "[::1]", "1.2.3.4.5", "::g", "", "",
+                                    "\u{661}.\u{662}.\u{663}.\u{664}", "\u{ff11}.\u{ff12}.\u{ff13}.\u{ff14}", "1.2.3.\u{664}", "²001:db8::1"]);
+                l.extend(g.as_bytes());
             } else {
                 l.extend(rand_ip(rng).as_bytes());
             }
             if !last { l.extend(ows(rng).as_bytes()); }
         }
+        while matches!(l.last(), Some(b' ') | Some(b'\t')) { l.pop(); }       // an empty last entry: the value ends with ',' 
         let at = rng.range(0, lines.len());
         lines.insert(at, l);
     }
@@ -471,7 +579,7 @@ fn generate(rng: &mut Rng, max_body: usize) -> Generated {
             0 => 0,
             1 => rng.range(1, 16),
             2 => rng.range(100, 2000),
-            3 => *rng.pick(&[8190usize, 8191, 8192, 8193, 16384]),
+            3 => *rng.pick(&[255usize, 256, 257, 8190, 8191, 8192, 8193, 16384, 65535, 65536]),
             4 => max_body,
             _ => rng.range(0, max_body),
         }.min(max_body);
@@ -479,10 +587,10 @@ fn generate(rng: &mut Rng, max_body: usize) -> Generated {
         let mut l = mutate_case(rng, "Content-Length").into_bytes();
         l.push(b':');
         l.extend(ows(rng).as_bytes());
+        if rng.chance(1, 10) { l.extend(rng.pick(&["0", "00", "000"]).as_bytes()); }     // 1*DIGIT: leading zeros are digits
         l.extend(len.to_string().as_bytes());
         let at = rng.range(0, lines.len());
         lines.insert(at, l);
-        if body.is_empty() && len == 0 { /* Content-Length: 0 */ }
     }
     let mut head: Vec<u8> = vec![];
     head.extend(method.as_bytes());
@@ -493,10 +601,11 @@ fn generate(rng: &mut Rng, max_body: usize) -> Generated {
     head.extend(b"\r\n");
     for l in &lines { head.extend(l); head.extend(b"\r\n"); }
     head.extend(b"\r\n");
+    let port = if rng.chance(1, 3) { *rng.pick(&[1u16, 80, 255, 256, 32767, 32768, 65535]) } else { rng.range(1, 65535) as u16 };
     let peer = if rng.chance(3, 4) {
-        SocketAddr::new(IpAddr::V4(Ipv4Addr::new(rng.byte(), rng.byte(), rng.byte(), rng.byte())), rng.range(1, 65535) as u16)
+        SocketAddr::new(IpAddr::V4(Ipv4Addr::new(rng.byte(), rng.byte(), rng.byte(), rng.byte())), port)
     } else {
-        SocketAddr::new(rand_ip(rng).parse().unwrap(), rng.range(1, 65535) as u16)
+        SocketAddr::new(rand_ip(rng).parse().unwrap(), port)
     };
     Generated { head, body, peer }
 }
@@ -521,6 +630,7 @@ pub fn random(parser: &dyn Parser, n: usize, max_body: usize) {
     let mut rng = Rng::from_env();
     for _ in 0..n {
         let g = generate(&mut rng, max_body);
+        set_current(format!("{} + {} body bytes (peer {})", show(&g.head[..g.head.len().min(400)]), g.body.len(), g.peer));
         let mut wire = g.head.clone();
         wire.extend(&g.body);
         let len = wire.len();
@@ -536,7 +646,7 @@ pub fn random(parser: &dyn Parser, n: usize, max_body: usize) {
         let mut first_req: Option<Request> = None;
         let mut errors: Vec<String> = vec![];
         for pl in &plans {
-            let (res, _) = parser.parse(&wire, pl, g.peer);
+            let (res, _) = run_parse(parser, &wire, pl, g.peer);
             match res {
                 Ok(r) => { observed.push(Some(observe(&r))); if first_req.is_none() { first_req = Some(r); } }
                 Err(e) => { observed.push(None); errors.push(format!("{}: {}", pl.name, e)); }
@@ -554,8 +664,8 @@ pub fn random(parser: &dyn Parser, n: usize, max_body: usize) {
             ser_len = bytes.len();
             let p1 = Plan { name: "all-at-once".into(), chunks: vec![bytes.len()], pending: false };
             let p2 = Plan { name: "random-small".into(), chunks: random_chunks(&mut rng, bytes.len(), 64), pending: true };
-            let a = parser.parse(&bytes, &p1, g.peer).0.ok().map(|r| observe(&r));
-            let b = parser.parse(&bytes, &p2, g.peer).0.ok().map(|r| observe(&r));
+            let a = run_parse(parser, &bytes, &p1, g.peer).0.ok().map(|r| observe(&r));
+            let b = run_parse(parser, &bytes, &p2, g.peer).0.ok().map(|r| observe(&r));
             rt_agree = a.is_some() && a == b;
             rt = a;
         }
@@ -572,8 +682,8 @@ pub fn random(parser: &dyn Parser, n: usize, max_body: usize) {
 pub fn main_with(parser: &dyn Parser) {
     let a: Vec<String> = std::env::args().collect();
     match a.get(1).map(|s| s.as_str()) {
-        Some("replay") => replay(parser),
-        Some("random") => random(parser, a[2].parse().unwrap(), a[3].parse().unwrap()),
+        Some("replay") => { start_watchdog(parser.runtime(), "replay"); replay(parser) }
+        Some("random") => { start_watchdog(parser.runtime(), "random"); random(parser, a[2].parse().unwrap(), a[3].parse().unwrap()) }
         _ => { eprintln!("usage: httpreq replay | random <n> <maxbody>"); std::process::exit(2) }
     }
 }
